@@ -134,6 +134,15 @@ def main(argv):
                             prop.append((len(a[4]), replay_obj(failat, sources, "property failure: error swallowed into a successful result",
                                                                ["text %d %s must be rejected as a whole (model %s) but evaluated to %s" % (i, unesc(src), y, x)],
                                                                {"case": cid}, entry)))
+                        elif x.startswith("V:") and y.startswith("E:"):
+                            prop.append((len(a[4]), replay_obj(failat, sources, "property failure: error swallowed into a successful result",
+                                                               ["text %d %s evaluates to %s; in the reference semantics this evaluation fails (%s)" % (i, unesc(src), x, y)],
+                                                               {"case": cid, "model_input": inp[:3000], "expected": mo}, entry)))
+                        elif any(o.startswith("E:") or o == "BUDGET" for o in io[:i]):
+                            prop.append((len(a[4]), replay_obj(failat, sources, "property failure: an evaluation after a failed evaluation differs from the reference semantics",
+                                                               ["text %d %s evaluates to %s, the reference semantics gives %s; an earlier text of the session failed "
+                                                                "(the twin shares heap objects and compiled code with the interpreter that failed, so it agrees)" % (i, unesc(src), x, y)],
+                                                               {"case": cid, "model_input": inp[:3000], "expected": mo}, entry)))
                         else:
                             corr.append({"case": cid, "failat": failat, "text_index": i, "text": unesc(src), "implementation": x, "model": y,
                                          "texts": [unesc(t) for t in sources]})
